@@ -1,4 +1,6 @@
 """C19 - global memory queries agree with the loaded image."""
+import json
+
 import core
 from core import Report
 from common import TRUSTED, first_with
@@ -21,6 +23,22 @@ MANIFEST = {
 }
 
 
+CANARY_N = 3000
+
+
+def pick_file(files, pred):
+    """first shard whose first CANARY_N events contain one the canary can corrupt (images whose segments are all
+    writeable - e.g. bare-metal ones - have no successful read)"""
+    for f in files:
+        with open(f) as fh:
+            for i, line in enumerate(fh):
+                if i >= CANARY_N:
+                    break
+                if i >= 5 and pred(json.loads(line)):
+                    return f
+    raise core.ToolError("canary: no shard starts with a suitable event")
+
+
 def check(seed, tier):
     rep = Report("C19", seed, tier)
     core.build_harness()
@@ -28,21 +46,27 @@ def check(seed, tier):
     meta = core.gen("C19", seed, tier, shards=8 if tier == "quick" else 16)
     core.validate_traces(rep, TRACE_SPEC, meta["files"], parallel=8, timeout=3600)
 
+    def is_read(e):
+        return e.get("q") == "read" and e["k"] == "value"
+
     def mutate(evs):
         # a successful read: flip one bit of the returned value
-        i = first_with(evs, lambda e: e.get("q") == "read" and e["k"] == "value")
+        i = first_with(evs, is_read)
         if i is not None:
             evs[i]["v"][0] ^= 1
         return i
-    core.canary(rep, TRACE_SPEC, meta["files"][0], mutate, stateful=True)
+    core.canary(rep, TRACE_SPEC, pick_file(meta["files"], is_read), mutate, n=CANARY_N, stateful=True)
+
+    def is_flag(e):
+        return e.get("q") == "writable" and e["k"] == "ok"
 
     def mutate2(evs):
         # a flag query on a mapped address: report the opposite flag
-        i = first_with(evs, lambda e: e.get("q") == "writable" and e["k"] == "ok")
+        i = first_with(evs, is_flag)
         if i is not None:
             evs[i]["b"] = not evs[i]["b"]
         return i
-    core.canary(rep, TRACE_SPEC, meta["files"][0], mutate2, stateful=True)
+    core.canary(rep, TRACE_SPEC, pick_file(meta["files"], is_flag), mutate2, n=CANARY_N, stateful=True)
     rep.traces, rep.events = meta["cases"], meta["events"]
     ex = meta["extra"]
     return rep.finish("model_checking", {
